@@ -241,8 +241,16 @@ def version_value_objects(lab, mon):
                     want = False
                 case = {"kind": "version", "current": current if isinstance(current, str) else list(current), "operator": opname, "tag_value": tv}
                 mon.case(("version", repr(current), opname, tv), True)
+                # (in a process whose warnings filter escalates warnings -- python -W error, PYTHONWARNINGS=error, a host program --
+                #  the answer is the same: a malformed version is non-matching, not an exception)
+                import warnings as _w
+                strict = (len(tv) + len(opname)) % 2 == 0
+                mon.seen("warnings_filter", "error" if strict else "default")
                 try:
-                    got = bool(vo.matches(tv))
+                    with _w.catch_warnings():
+                        if strict:
+                            _w.simplefilter("error")
+                        got = bool(vo.matches(tv))
                 except Exception as ex:
                     got = repr(ex)
                 mon.check("valueobject.version_compare", got == want, lambda: dict(case=case, got=got, want=want))
